@@ -89,6 +89,7 @@ def worker(payload):
         corr_ok = True
         seen_get = False
         reg_after_get = False
+        warm = {}
         for j, (a, b) in enumerate(zip(r["ops"], im)):
             out["ops"] += 1
             op = sc["ops"][j]
@@ -97,15 +98,29 @@ def worker(payload):
             if isinstance(ma["r"], dict):
                 info = ma["r"]
                 ma["r"] = info["res"]
-            if ma != b:
+                ma["nres"] = info["nres"]
+            bb = {k: v for k, v in b.items() if k != "npred" and (k != "nres" or "nres" in ma)}
+            if ma != bb:
                 out["corr"].append({"layer": "D", "op_index": j, "op": op, "model": ma, "impl": b, "scenario": desc})
                 corr_ok = False
                 break
             if op[0] != "get":
                 if seen_get:
                     reg_after_get = True
+                warm = {}
                 continue
             seen_get = True
+            # ---- C20: a lookup that already succeeded (no registration since) consults nothing again
+            o20 = orc("C20")
+            gk = json.dumps(op)
+            if gk in warm:
+                o20["n"] += 1
+                if any(t[0] in ("pred",) for m in sc["meths"] for _, _, t in m["params"]):
+                    o20["nontrivial"] += 1
+                if b["nres"] or b["npred"]:
+                    o20["viol"].append({"law": "a lookup that had already succeeded resolved / consulted user predicates again", "nres": b["nres"], "npred": b["npred"], "op_index": j, "op": op, "scenario": desc})
+            if b["r"] and b["r"][0] == "ok":
+                warm[gk] = True
             ik = kind(b["r"])
             bump("outcome:" + ik[0])
             # ---- C04 / C05: same answer as on a fresh table with the same registrations
